@@ -79,11 +79,15 @@ def generate(gen, tier):
     n = 60 if tier == 'quick' else 1500
     for _ in range(n):
         cases.append({'lines': [], 'o': {'kind': 'partial', 'seed': rng.randrange(10**6)}})
+    # class bodies with the pseudo-fields dataclasses keeps next to the real ones (ClassVar, InitVar), KW_ONLY
+    # sentinels and plain-dataclass bases: written as source text, oracle only
+    for _ in range(50 if tier == 'quick' else 1500):
+        cases.append({'lines': [], 'o': {'kind': 'dcx', 'seed': rng.randrange(10**6)}})
     return cases
 
 
 def nontrivial(case):
-    if case['o']['kind'] == 'partial':
+    if case['o']['kind'] in ('partial', 'dcx'):
         return True
     return len(parse(case['o']['req'])) >= 7
 
@@ -95,7 +99,100 @@ def distribution(cases):
     return {'case_kinds': d}
 
 
+def _dcx(seed):
+    """an optree dataclass whose body also has ClassVar / InitVar pseudo-fields, a KW_ONLY sentinel and possibly a plain
+    dataclass base: the children are the values of the pytree_node fields among dataclasses.fields(cls) - the real
+    fields only - in declaration order"""
+    import dataclasses as std
+    import random
+    import optree
+    import optree.dataclasses as odc
+    rng = random.Random(seed)
+    fails = []
+    ns = f'dcx-{seed}'
+    kinds = ['field', 'field', 'meta', 'classvar', 'classvar-novalue', 'initvar', 'kwonly-sentinel']
+
+    def body(names, allow_sentinel):
+        lines, seen_default, kw = [], False, False
+        for n in names:
+            k = rng.choice(kinds if allow_sentinel else kinds[:-1])
+            if k == 'field':
+                d = rng.random() < 0.3 or (seen_default and not kw)
+                lines.append(f'    {n}: int' + (f' = {len(lines) + 1}' if d else ''))
+                seen_default = seen_default or d
+            elif k == 'meta':
+                d = rng.random() < 0.3 or (seen_default and not kw)
+                lines.append(f'    {n}: int = FIELD(pytree_node=False' + (f', default={len(lines) + 10}' if d else '') + ')')
+                seen_default = seen_default or d
+            elif k == 'classvar':
+                lines.append(f'    {n}: ClassVar[int] = {len(lines) + 100}')
+            elif k == 'classvar-novalue':
+                lines.append(f'    {n}: ClassVar[int]')
+            elif k == 'initvar':
+                lines.append(f'    {n}: InitVar[int] = {len(lines) + 1000}')
+                seen_default = True
+            elif not kw:
+                lines.append('    _: KW_ONLY')
+                kw = True
+        return lines or ['    pass']
+    names = [f'g{i}' for i in range(rng.choice([2, 3, 4, 5]))]
+    split = rng.randrange(0, len(names)) if rng.random() < 0.4 else 0
+    src = ['import dataclasses', 'from dataclasses import InitVar, KW_ONLY', 'from typing import ClassVar']
+    base = ''
+    if split:
+        plain = rng.random() < 0.5
+        src += ['@dataclasses.dataclass' if plain else '@ODC(namespace=NS + "-base")', 'class Base:']
+        src += [ln.replace('FIELD(pytree_node=False', 'dataclasses.field(' if plain else 'FIELD(pytree_node=False').replace('field(, ', 'field(')
+                for ln in body(names[:split], False)]
+        base = '(Base)'
+    src += ['@ODC(namespace=NS)', f'class Gen{base}:'] + body(names[split:], True)
+    src += ['    def __post_init__(self, *initvars):', '        self.seen_initvars = initvars']
+    env = {'ODC': odc.dataclass, 'FIELD': odc.field, 'NS': ns}
+    text = '\n'.join(src)
+    # (dont_inherit: this module's `from __future__ import annotations` would turn the annotations into strings)
+    code = compile(text, '<dcx>', 'exec', flags=0, dont_inherit=True)
+    # the same source under the stdlib decorator: a declaration dataclasses itself rejects is not a case
+    std_env = {'ODC': lambda namespace=None: std.dataclass, 'NS': ns,
+               'FIELD': lambda pytree_node=True, **kw: std.field(**kw)}
+    try:
+        exec(code, std_env)     # noqa: S102
+    except Exception:           # noqa: BLE001
+        return []
+    try:
+        exec(code, env)     # noqa: S102
+    except Exception as e:  # noqa: BLE001
+        return [{'key': 'dcx-declaration-raises', 'what': f'a declaration that dataclasses.dataclass accepts is rejected: {type(e).__name__}: {e}',
+                 'source': text}]
+    cls = env['Gen']
+    real = std.fields(cls)
+    want_children = [f.name for f in real if f.metadata.get('pytree_node', True)]
+    kwargs = {f.name: (j, [j]) if f.metadata.get('pytree_node', True) else j * 7
+              for j, f in enumerate(real) if f.init and (f.default is std.MISSING or rng.random() < 0.5)}
+    try:
+        obj = cls(**kwargs)
+    except Exception as e:  # noqa: BLE001
+        return [{'key': 'dcx-construct-raises', 'what': f'{type(e).__name__}: {e}', 'source': text}]
+    try:
+        leaves, spec = optree.tree_flatten(obj, namespace=ns)
+        rebuilt = optree.tree_unflatten(spec, leaves)
+        mapped = optree.tree_map(lambda x: x, obj, namespace=ns)
+    except Exception as e:  # noqa: BLE001
+        return [{'key': 'dcx-raises', 'what': f'flatten / unflatten / tree_map raised {type(e).__name__}: {e}', 'source': text}]
+    want_leaves = [x for n in want_children for x in optree.tree_leaves(getattr(obj, n))]
+    if leaves != want_leaves or spec.entries() != want_children or spec.num_children != len(want_children):
+        fails.append({'key': 'dcx-partition', 'what': f'children {spec.entries()} with leaves {leaves}: expected the pytree_node fields among '
+                      f'dataclasses.fields(cls) in declaration order, {want_children} with leaves {want_leaves}', 'source': text})
+    for other, name in ((rebuilt, 'tree_unflatten'), (mapped, 'tree_map(identity)')):
+        if type(other) is not cls or any(getattr(other, f.name) != getattr(obj, f.name) for f in real) \
+                or other.seen_initvars != obj.seen_initvars:
+            fails.append({'key': 'dcx-roundtrip', 'what': f'{name} does not rebuild the object the constructor would build from the same field values '
+                          f'(fields or the InitVar values seen by __post_init__ differ)', 'source': text})
+    return fails
+
+
 def oracle(impl, o):
+    if o.get('kind') == 'dcx':
+        return _dcx(o['seed'])
     import dataclasses as std
     import functools
     import inspect
